@@ -1029,7 +1029,11 @@ func (s *Store[K, V]) processSecondary() {
 			return
 		case item = <-s.secondaryCacheBuf:
 		}
-		tk := item.shard.mu.RLock()
+		// one hold of the shard write lock covers the write to the secondary cache
+		// and the removal from the map: a Set that updated the entry in place between
+		// the two would invalidate the copy just written and then lose its own value
+		// when the entry is removed
+		item.shard.mu.Lock()
 		// first double check key still exists in map,
 		// not exist means key already deleted by Delete API
 		// (by identity: the key may have been deleted and set again meanwhile,
@@ -1040,40 +1044,28 @@ func (s *Store[K, V]) processSecondary() {
 				item.entry.key, item.entry.value,
 				item.entry.weight.Load(), item.entry.expire.Load(),
 			)
-			item.shard.mu.RUnlock(tk)
+			verifPoint(vpSecWritten)
+			// the policy has evicted this entry already: it leaves the map whether
+			// or not the write succeeded, or memory grows without bound while the
+			// secondary cache fails
+			deleted := false
+			if item.reason == EVICTED {
+				deleted = item.shard.delete(item.entry)
+			}
+			item.shard.mu.Unlock()
 			if err != nil {
 				s.secondaryCache.HandleAsyncError(err)
-				// the policy has evicted this entry already: it must leave the map as
-				// well, or memory grows without bound while the secondary cache fails
-				if item.reason == EVICTED {
-					item.shard.mu.Lock()
-					deleted := item.shard.delete(item.entry)
-					item.shard.mu.Unlock()
-					if deleted {
-						s.policyMu.Lock()
-						if s.removalListener != nil {
-							s.removalListener(item.entry.key, item.entry.value, EVICTED)
-						}
-						s.postDelete(item.entry)
-						s.policyMu.Unlock()
-					}
-				}
-				verifPoint(vpSecDone)
-				continue
 			}
-			verifPoint(vpSecWritten)
-			if item.reason == EVICTED {
-				item.shard.mu.Lock()
-				deleted := item.shard.delete(item.entry)
-				item.shard.mu.Unlock()
-				if deleted {
-					s.policyMu.Lock()
-					s.postDelete(item.entry)
-					s.policyMu.Unlock()
+			if deleted {
+				s.policyMu.Lock()
+				if err != nil && s.removalListener != nil {
+					s.removalListener(item.entry.key, item.entry.value, EVICTED)
 				}
+				s.postDelete(item.entry)
+				s.policyMu.Unlock()
 			}
 		} else {
-			item.shard.mu.RUnlock(tk)
+			item.shard.mu.Unlock()
 		}
 		verifPoint(vpSecDone)
 	}
